@@ -44,11 +44,11 @@ static void init_names() {
     OPN[OP_A_TADD] = "A_TADD"; OPN[OP_A_TFIND] = "A_TFIND"; OPN[OP_A_TREM] = "A_TREM"; OPN[OP_A_TCLR] = "A_TCLR"; OPN[OP_A_TCOMPL] = "A_TCOMPL";
     OPN[OP_A_HEARD] = "A_HEARD"; OPN[OP_A_DISCBOOK] = "A_DISCBOOK"; OPN[OP_A_CHARGE] = "A_CHARGE"; OPN[OP_A_INACT] = "A_INACT";
     OPN[OP_A_SETR] = "A_SETR"; OPN[OP_A_BANDSET] = "A_BANDSET"; OPN[OP_A_SETMAP] = "A_SETMAP"; OPN[OP_A_SETSESS] = "A_SETSESS";
-    OPN[OP_A_BLOCKEND] = "A_BLOCKEND";
+    OPN[OP_A_BLOCKEND] = "A_BLOCKEND"; OPN[OP_A_REINIT] = "A_REINIT";
 }
 const char *op_name(int k) { init_names(); return (k >= 0 && k < OP_KIND_MAX && OPN[k]) ? OPN[k] : "?"; }
 int op_kind_from_name(const std::string &s) { init_names(); for (int i = 0; i < OP_KIND_MAX; i++) if (OPN[i] && s == OPN[i]) return i; return -1; }
-static const char *FN[F_KIND_MAX] = {"DROP", "DUP", "DELAY", "TRUNC", "PAD", "SETB", "XORB", "COUNT", "ALLOCFAIL", "SENDFAIL", "GETFAIL"};
+static const char *FN[F_KIND_MAX] = {"DROP", "DUP", "DELAY", "TRUNC", "PAD", "SETB", "XORB", "COUNT", "ALLOCFAIL", "SENDFAIL", "GETFAIL", "TAILMAC"};
 const char *fault_name(int k) { return (k >= 0 && k < F_KIND_MAX) ? FN[k] : "?"; }
 int fault_kind_from_name(const std::string &s) { for (int i = 0; i < F_KIND_MAX; i++) if (s == FN[i]) return i; return -1; }
 
@@ -81,7 +81,21 @@ static void gen_field(Attr &a, Rng &r, uint32_t bit) {
         break;
     case G_IFTYPE: a.iftype = boundary32(r); break;
     case G_IPV4: a.ipv4 = boundary32(r); break;
-    case G_IPV6: for (auto &c : a.ipv6) c = r.chance(0.2) ? 0 : (uint8_t)r.next(); break;
+    case G_IPV6:
+        for (auto &c : a.ipv6) c = r.chance(0.2) ? 0 : (uint8_t)r.next();
+        if (r.chance(0.5)) { // the address families a host really has: link-local (also with a zone id embedded), ULA, v4-mapped, loopback, documentation
+            switch (r.below(8)) {
+            case 0: memset(a.ipv6, 0, 8); a.ipv6[0] = 0xfe; a.ipv6[1] = 0x80; break;                                   // fe80::iid
+            case 1: memset(a.ipv6, 0, 8); a.ipv6[0] = 0xfe; a.ipv6[1] = 0x80; a.ipv6[2] = (uint8_t)r.next(); a.ipv6[3] = (uint8_t)(r.next() | 1); break; // fe80:XXXX::iid
+            case 2: a.ipv6[0] = 0xfe; a.ipv6[1] = (uint8_t)(0x80 | (r.next() & 0x3f)); break;
+            case 3: a.ipv6[0] = 0xfd; break;
+            case 4: memset(a.ipv6, 0, 10); a.ipv6[10] = a.ipv6[11] = 0xff; break;                                       // ::ffff:a.b.c.d
+            case 5: memset(a.ipv6, 0, 16); a.ipv6[15] = (uint8_t)r.below(2); break;                                     // :: and ::1
+            case 6: a.ipv6[0] = 0x20; a.ipv6[1] = 0x01; a.ipv6[2] = 0x0d; a.ipv6[3] = 0xb8; break;
+            default: a.ipv6[0] = 0xff; a.ipv6[1] = 0x02; break;
+            }
+        }
+        break;
     case G_SPEED: a.speed = boundary32(r); break;
     case G_HOSTNAME: a.hostname = rbytes(r, r.chance(0.3) ? (size_t)r.pickl({0, 1, 31, 32, 33, 40}) : r.below(41), true); a.hostname_ret_full = r.chance(0.3); break;
     case G_WIFIMODE: a.wifimode = (uint8_t)r.pickl({0, 1, 2, 0x7F, 0x80, 0xFF}); break;
@@ -113,7 +127,11 @@ static void gen_field(Attr &a, Rng &r, uint32_t bit) {
     case G_HWID: {
         size_t n = (size_t)r.range(0, 32) * 2; // UCS-2 code units, no embedded NUL unit
         a.hwid.resize(n);
-        for (size_t i = 0; i + 1 < n; i += 2) { a.hwid[i] = (uint8_t)r.range(0x21, 0x7e); a.hwid[i + 1] = r.chance(0.8) ? 0 : (uint8_t)r.range(1, 255); }
+        bool wide = r.chance(0.3); // identifiers outside Latin-1: code units such as U+0100, U+3000, U+4E00 have a zero LOW byte
+        for (size_t i = 0; i + 1 < n; i += 2) {
+            a.hwid[i] = (uint8_t)r.range(0x21, 0x7e); a.hwid[i + 1] = r.chance(0.8) ? 0 : (uint8_t)r.range(1, 255);
+            if (wide && r.chance(0.3)) { a.hwid[i] = 0; a.hwid[i + 1] = (uint8_t)r.range(1, 255); }
+        }
         break;
     }
     default: break;
@@ -369,7 +387,11 @@ int lltd_port_send_frame(void *iface_ctx, const void *frame, size_t frame_len) {
 int lltd_port_get_mtu(void *ctx, size_t *out) {
     Node *n = node_of_ctx(ctx);
     if (!n || !out) return -1;
-    if (getter_fails(n, G_MTU)) { note_getfail(G_MTU); return -1; }
+    if (getter_fails(n, G_MTU)) {
+        note_getfail(G_MTU);
+        // how a port fails to tell the MTU: error with the out parameter untouched / zeroed / holding a small leftover, or "success" with 0
+        switch ((n->cfg.attr_seed >> 2) % 4) { case 1: *out = 0; return -1; case 2: *out = 0; return 0; case 3: *out = 16; return -1; default: return -1; }
+    }
     *out = n->cfg.mtu;
     return 0;
 }
@@ -649,6 +671,13 @@ static void apply_frame_faults(Bytes &f, const Op *op, World &w, size_t mtu_hint
         case F_PAD: if ((size_t)ft.a > f.size()) { f.resize(std::min((size_t)ft.a, (size_t)65536), (uint8_t)ft.b); w.st.fault_fired[F_PAD]++; } break;
         case F_SETB: if ((size_t)ft.a < f.size()) { f[(size_t)ft.a] = (uint8_t)ft.b; w.st.fault_fired[F_SETB]++; } break;
         case F_XORB: if ((size_t)ft.a < f.size()) { f[(size_t)ft.a] ^= (uint8_t)ft.b; w.st.fault_fired[F_XORB]++; } break;
+        case F_TAILMAC:
+            if ((size_t)ft.b < w.nodes.size() && ft.a >= 1 && ft.a <= 6 && f.size() >= (size_t)ft.a) {
+                const Mac &m = w.nodes[(size_t)ft.b]->attr.mac;
+                for (int k = 0; k < ft.a; k++) f[f.size() - (size_t)ft.a + (size_t)k] = m.a[k];
+                w.st.fault_fired[F_TAILMAC]++;
+            }
+            break;
         case F_COUNT:
             if (f.size() >= 36) {
                 size_t off = (f[wire::OFF_OP] == wire::W_EMIT) ? 32 : 34;
@@ -1082,6 +1111,17 @@ void World::exec_api(int i, const Op &op) {
     Node &n = *nodes[0];
     st.api_ops++;
     if (op.kind == OP_A_ADV) { now += (uint64_t)op.a[0]; handling_base = now; for (auto m : monitors) { glue_view v; glue_view_get(n.glue, &v); m->on_api(*this, i, op, v, v, 0); } return; }
+    if (op.kind == OP_A_REINIT) { // the daemon tears the interface down and brings it up again (new automata, new table) at the current time
+        cur = &n; ledger_tag = 1; handling_base = now; sleep_accum = 0;
+        glue_destroy(n.glue);
+        n.glue = glue_create(n.cfg.glue, n.ctx(), n.attr.mac.a, 0, 0);
+        n.usable = n.glue && glue_usable(n.glue);
+        cur = nullptr; ledger_tag = 0;
+        glue_view v; glue_view_get(n.glue, &v);
+        for (auto m : monitors) m->on_api(*this, i, op, v, v, 0);
+        note("api_reinit");
+        return;
+    }
     if (op.kind == OP_A_TICK) { for (auto m : monitors) m->pre_api(*this, i, op); n.busy_until = 0; do_tick(0); glue_view v; glue_view_get(n.glue, &v); for (auto m : monitors) m->on_api(*this, i, op, v, v, 0); return; }
     for (auto m : monitors) m->pre_api(*this, i, op);
     glue_view before, after;
